@@ -58,6 +58,7 @@ fn observe_sdes(b: &[u8]) -> Result<SdesSeen, RtcpParseError> {
 pub fn check_c10(ctx: &mut Ctx, input: &[u8]) {
     let data = exact(input);
     let b: &[u8] = &data;
+    let _case = crate::watchdog::case_bytes("c10", b);
     if !dec::well_framed(b, Some(202), 4) {
         ctx.class("c10:skipped:not-framed-as-sdes");
         return;
@@ -294,6 +295,7 @@ pub fn check_c15(ctx: &mut Ctx, transport: bool, fmt: u8, fci: &[u8]) {
     let fci = &pkt[12..]; // zero-filled to a word boundary by the model
     let data = exact(&pkt);
     let b: &[u8] = &data;
+    let _case = crate::watchdog::case_bytes("c15", b);
     let bound = obs::bound_for(b.len());
     let case = || bytes_case("c15", b);
     let r = call(|| -> Result<obs::FciObs, RtcpParseError> {
@@ -404,6 +406,7 @@ pub fn check_c15_direct(ctx: &mut Ctx, fci_in: &[u8]) {
     ctx.eval();
     let data = exact(fci_in);
     let fci: &[u8] = &data;
+    let _case = crate::watchdog::case_bytes("c15-direct", fci);
     let bound = obs::bound_for(fci.len());
     let r = call(|| {
         let mut errs: Vec<(&'static str, String, String)> = vec![];
@@ -616,6 +619,7 @@ pub fn floor_c15(ctx: &Ctx) -> Vec<(String, bool)> {
 // ================================================================== C13
 
 pub fn check_c13(ctx: &mut Ctx, base: &[u8], pad: u8) {
+    let _case = crate::watchdog::case_bytes2("c13", base, pad as u64, 0);
     if base.len() < 4 || base[0] & 0x20 != 0 || pad == 0 || pad % 4 != 0 || base.len() + pad as usize > enc::MAX_PACKET_BYTES {
         return;
     }
